@@ -78,13 +78,14 @@ BadFM(e) == { i \in Idx(e.xs) : ~IsMod(e.rs[i], e.xs[i], e.p) }
 BadSpt(e) == { i \in Idx(e.r) : e.r[i] # IsSafePrime(e.n0 + i - 1) }
 BadRpir(e) == IF e.failed THEN {0} ELSE { i \in Idx(e.p) : ~IsPrimeInRange(e.p[i], e.start, e.len) }
 BadSpgen(e) == { i \in Idx(e.p) : ~IsSafePrimeOfSize(e.p[i], e.bits) }
-\* the group itself must be the one BuildGroup promises; exponents outside -q < e < q are outside the domain
-BadGexp(e) == LET q == GroupOrder(e.gp)
-                  g == IF e.base = "g" THEN GroupG(e.gp) ELSE GroupH(e.gp) IN
-              IF ~e.built \/ e.gq # q \/ e.g # g THEN {0}
+\* the group itself must be what BuildGroup promises (refused exactly for P = 5; otherwise a base of order q: a square other than 1);
+\* exponents outside -q < e < q are outside the domain
+BadGexp(e) == LET q == GroupOrder(e.gp) IN
+              IF ~e.built THEN (IF GroupBuildable(e.gp) THEN {0} ELSE {})
+              ELSE IF ~GroupBuildable(e.gp) \/ e.gq # q \/ e.g <= 1 \/ e.g >= e.gp \/ PowMod(e.g, q, e.gp) # 1 THEN {0}
               ELSE { i \in Idx(e.st) :
                        LET x == e.e0 + i - 1 IN
-                       GroupExpInDomain(x, q) /\ ~(e.st[i] = 0 /\ e.r[i] = GroupExp(g, x, q, e.gp)) }
+                       GroupExpInDomain(x, q) /\ ~(e.st[i] = 0 /\ e.r[i] = GroupExp(e.g, x, q, e.gp)) }
 
 Bad(e) == CASE e.f = "leg" -> BadLeg(e) [] e.f = "jac" -> BadJac(e) [] e.f = "inv" -> BadInv(e)
             [] e.f = "pow" -> BadPow(e) [] e.f = "crt" -> BadCrt(e) [] e.f = "sqrt" -> BadSqrt(e)
